@@ -42,18 +42,18 @@ CHECK = {
     "targets": [
         {"name": "TestC10Decode", "build": 0,
          "quick": {"cases": 25000, "shards": 2, "soft_s": 40, "gomaxprocs": 2},
-         "thorough": {"cases": 250000, "shards": 8, "soft_s": 300, "gomaxprocs": 2}},
+         "thorough": {"cases": 250000, "shards": 5, "soft_s": 300, "gomaxprocs": 2}},
         {"name": "TestC10API", "build": 1,
          "quick": {"cases": 3000, "shards": 2, "soft_s": 40, "gomaxprocs": 4},
-         "thorough": {"cases": 40000, "shards": 8, "soft_s": 330, "gomaxprocs": 4}},
+         "thorough": {"cases": 40000, "shards": 5, "soft_s": 330, "gomaxprocs": 3}},
         # Hugging Face directories and LoRA adapters through POST /api/create (package convert behind server/create.go)
         {"name": "TestC10Convert", "build": 1,
          "quick": {"cases": 3000, "shards": 2, "soft_s": 40, "gomaxprocs": 4},
-         "thorough": {"cases": 30000, "shards": 8, "soft_s": 330, "gomaxprocs": 4}},
+         "thorough": {"cases": 30000, "shards": 5, "soft_s": 330, "gomaxprocs": 3}},
         # native coverage-guided fuzzing of ggml.Decode over arbitrary byte strings, seeded with structured files;
         # thorough tier only (cannot be pinned to VERIF_SEED; the saved input is the reproducible unit)
         {"name": "FuzzC10Decode", "build": 2, "kind": "fuzz",
-         "thorough": {"fuzztime": "90s", "workers": 12, "hard_s": 600}},
+         "thorough": {"fuzztime": "90s", "workers": 8, "hard_s": 600}},
     ],
     "floors": {"header_ok": 0.5, "decoded_ok_after_mutation": 0.05, "mut:set:strlen": 0.01, "mut:set:arrcount": 0.01,
                "mut:set:dims": 0.01, "mut:set:alignment": 0.005, "mut:trunc_field": 0.03, "retyped_wellknown_key": 0.1,
